@@ -105,8 +105,8 @@ class Env:
         self._make_storage()
         if oid_base:
             # oids beyond 2^16 / with 0xff and 0x00 bytes: the blob path is derived from the oid's bytes
-            if flavor == 'fs':
-                self.storage.set_max_oid(p64(oid_base))
+            if flavor in ('fs', 'wrapfs'):
+                self.base.set_max_oid(p64(oid_base))
             else:
                 self.base._oid = oid_base
         self.intern = Intern()
@@ -142,13 +142,19 @@ class Env:
                 self.storage = ZODB.config.storageFromString(text)
                 self.base = self.storage
             else:
-                text = '<blobstorage>\n  blob-dir %s\n  <mappingstorage/>\n</blobstorage>\n' % self.blob_dir
+                inner = ('<mappingstorage/>' if self.flavor == 'wrap' else
+                         '<filestorage>\n    path %s\n  </filestorage>' % os.path.join(self.root, 'Data.fs'))
+                text = '<blobstorage>\n  blob-dir %s\n  %s\n</blobstorage>\n' % (self.blob_dir, inner)
                 self.storage = ZODB.config.storageFromString(text)
                 self.base = self.storage._BlobStorage__storage
         elif self.flavor == 'fs':
             self.storage = FileStorage(os.path.join(self.root, 'Data.fs'), blob_dir=self.blob_dir,
                                        pack_keep_old=self.keep_old, pack_gc=self.pack_gc)
             self.base = self.storage
+        elif self.flavor == 'wrapfs':
+            # the legacy proxy: the blob wrapper over an UNDO-CAPABLE storage without blob support of its own
+            self.base = FileStorage(os.path.join(self.root, 'Data.fs'), pack_gc=self.pack_gc)
+            self.storage = ZODB.blob.BlobStorage(self.blob_dir, self.base)
         else:
             self.base = MappingStorage()
             self.storage = ZODB.blob.BlobStorage(self.blob_dir, self.base)
@@ -456,12 +462,12 @@ class Env:
         wrap('store', pre_store)
         wrap('storeBlob', pre_storeblob)
         wrap('restoreBlob', pre_restoreblob)
-        if self.flavor == 'fs':
+        if self.flavor in ('fs', 'wrapfs'):
             wrap('restore', pre_restore)
         wrap('tpc_vote', pre_simple('vote'))
         wrap('tpc_finish', pre_finish)
         wrap('tpc_abort', pre_abort)
-        if self.flavor == 'fs':
+        if self.flavor in ('fs', 'wrapfs'):
             wrap('undo', pre_undo)
         wrap('pack', pre_pack)
 
